@@ -4,8 +4,10 @@ The tiling statement reduces to the *key discipline* of the ctls dictionary:
 `start` and `end` are keys, every key lies in [start, end]; write_ctl prints
 sorted(ctls).  P: site obligations at every insertion / deletion of
 _find_terminal_instruction (all three calling modes) and at the block-start
-appends of _generate_ctls_without_code_map's decode loop, with ghost values for
-the requested range; loops by havoc + invariant; decode() by its contract.
+appends of _generate_ctls_without_code_map's decode loop and at every store /
+deletion of its three dictionary phases (props/c14dict.py), with ghost values for
+the requested range; loops by havoc + invariant; decode() and the text scanners
+(props/c14text.py) by their proved contracts.
 B: the whole generator + write_ctl on generated images and code maps, with the
 caller-side preconditions of _find_terminal_instruction checked at run time.
 """
@@ -394,12 +396,15 @@ def run(tier):
     rep = common.Report('C14', tier, 'other', './check C14 --tier %s' % tier)
     rep.trust('pyvc (havoc/invariant loops, unknown-value abstraction), z3; CPython for the bounded generator runs')
     rep.assume('decode() contract (first address == start, 1 <= size <= 4, consecutive addresses, all in [start, end)) is proved here for rst_handler=None (props/decodevc.py); RST-argument handling is not under VC')
-    rep.assume('read_map, Disassembly and _get_text_blocks return addresses within the requested range: assumed here, observed in the bounded runs')
-    rep.assume('steps (3)-(7) of _generate_ctls_with_code_map and the post-processing phases of _generate_ctls_without_code_map mutate ctls with keys taken from ctls itself or from the above functions: not under VC, bounded only; termination of the fix-point loops is only observed')
+    rep.assume('read_map and Disassembly return addresses within the requested range: assumed here, observed in the bounded runs (_get_text_blocks: proved, props/c14text.py)')
+    rep.assume('steps (3)-(7) of _generate_ctls_with_code_map mutate ctls with keys taken from ctls itself or from the above functions: not under VC, bounded only (the three dictionary phases of _generate_ctls_without_code_map are under VC, props/c14dict.py); termination of the fix-point loops is only observed')
     from props import decodevc
     decodevc.check_decode(rep, 'C14')
     check_find_terminal(rep)
     check_without_code_map(rep)
+    from props import c14text, c14dict
+    c14text.check_text_scanners(rep, 'C14')       # _check_text / _get_text_blocks: blocks inside the requested range
+    c14dict.check_dict_phases(rep, 'C14')         # zero-block / join / text phases keep {start, end} and the 'i' at end
     quick = tier == 'quick'
     n = 400 if quick else 12000
     with Pool(common.NCPU) as p:
@@ -419,7 +424,8 @@ def run(tier):
             continue
         seen.add(key)
         rep.violation(key, 'sna2ctl %s: %s' % (b[1], b[2]), {'case': {'desc': b[1], 'bytes_from_start_minus_2': b[3]}, 'observed': b[2]})
-    rep.extra['explanation'] = 'P: key-discipline site obligations of the ctls dictionary in the two integer kernels; B: whole generator'
+    rep.extra['explanation'] = ('P: key-discipline site obligations of the ctls dictionary in _find_terminal_instruction (3 modes), the decode loop and the three dictionary '
+                                'phases of _generate_ctls_without_code_map; the text scanners against their range contract; decode() against its contract. B: whole generator')
     return rep.finish()
 
 
@@ -443,5 +449,30 @@ def replay(path):
             print('VIOLATION property=C14 replay=%s' % path)
             return 1
         return 0
+    if 'bytes' in case and 'start' in case and 'end' in case:
+        # an image for _generate_ctls_without_code_map (dict phases)
+        import skoolkit.snactl as S
+        snap = [0] * 65536
+        snap[case['start']:case['start'] + len(case['bytes'])] = case['bytes']
+        try:
+            ctls = S._generate_ctls_without_code_map(snap, case['start'], case['end'], _Cfg(), None)
+            errs = tiling_errors(ctls, case['start'], case['end'])
+        except Exception as ex:
+            errs = [repr(ex)]
+        print(errs)
+        if errs:
+            print('VIOLATION property=C14 replay=%s' % path)
+            return 1
+        return 0
+    if 'data' in case and 'start' in case:
+        from props import c14text
+        r = c14text.replay_text_blocks({'start': case['start']}, '')
+        print(r['diffs'])
+        if r['diffs']:
+            print('VIOLATION property=C14 replay=%s' % path)
+            return 1
+        return 0
     print(doc.get('what'))
+    if doc.get('no_failing_input_found'):
+        print('VIOLATION property=C14 replay=%s no-failing-input-found' % path)
     return 1
